@@ -64,6 +64,16 @@ def applyT (s : MState) : Transform → MState
   | .trackScales => applyTransform .track s
   | .compile => applyTransform .compile s
 
+/-- `_order_backends` reads `b.__qualname__` of every backend in the list; the scale-tracking backend and the
+    `torch.compile` backend are objects without that attribute, so `unit_scale` of a module that already carries one of
+    them raises `AttributeError` (such chains lie outside C17's family: both are documented to come last). -/
+def unitScaleRejects (s : MState) : Bool := s.backends.any fun k => k == .track || k == .compile
+
+/-- does the real code accept the chain `c` applied to `s` (no `unit_scale` after a `track_scales` / `compile`)? -/
+def chainAccepted : MState → List Transform → Bool
+  | _, [] => true
+  | s, x :: rest => (if x = .unitScale then !unitScaleRejects s else true) && chainAccepted (applyT s x) rest
+
 /-- calling the module: the composed backends run (in list order) once if `rerun`, then the
     optimised call is cached -/
 def callM (s : MState) : MState :=
